@@ -46,10 +46,10 @@ theorem skipLoop_bound (t : Bytes) (lo m : Nat) (hm : m < t.length)
       · rw [if_neg hsp]
         exact ⟨p, rfl, Nat.le_refl _, hp⟩
 
-/-- the scan for the end of a processing instruction whose body has neither `?` nor `<` -/
+/-- the scan for the end of a processing instruction whose body has neither `?>` nor `<` -/
 theorem piInner_walk (t : Bytes) (lo m : Nat) (hm : m + 2 ≤ t.length)
     (h1 : t.getD m 0 = 63) (h2 : t.getD (m + 1) 0 = 62)
-    (hbody : ∀ i, lo ≤ i → i < m → t.getD i 0 ≠ 63 ∧ t.getD i 0 ≠ 60) (sp : Pos) :
+    (hbody : ∀ i, lo ≤ i → i < m → (t.getD i 0 = 63 → t.getD (i + 1) 0 ≠ 62) ∧ t.getD i 0 ≠ 60) (sp : Pos) :
     ∀ (n : Nat) (p : Pos), lo ≤ p.pos → p.pos ≤ m → m - p.pos ≤ n →
       ∃ q : Pos, q.pos = m + 2 ∧ (PosOK t p → PosOK t q) ∧ ∀ f, n < f → piInner t f sp p = .ok q := by
   intro n
@@ -98,7 +98,30 @@ theorem piInner_walk (t : Bytes) (lo m : Nat) (hm : m + 2 ≤ t.length)
         rw [if_pos trivial, peek_eq (by omega), h2]; simp only [Res.ok_bind]
         rw [if_pos trivial]
     · have hlt : p.pos + k < m := by omega
-      have hne63 : t.getD (p.pos + k) 0 ≠ 63 := (hbody _ (by omega) hlt).1
+      by_cases h63 : t.getD (p.pos + k) 0 = 63
+      · -- a `?` that does not end the instruction
+        have hne62 := (hbody _ (by omega) hlt).1 h63
+        obtain ⟨q1, hq1, hq1a, hq1b⟩ := skipLoop_bound t lo m (by omega) (by rw [h1]; decide) (by rw [h1]; decide)
+          (fun j hj1 hj2 => (hbody j hj1 hj2).2) (t.length + 2) ⟨p.line, p.pos + k + 1, p.ls⟩ none
+          (by simp; omega) (by simp; omega) (by simp; omega)
+        have hsk : skipSpace t ⟨p.line, p.pos + k + 1, p.ls⟩ = .ok (q1, none) := hq1
+        simp at hq1a hq1b
+        obtain ⟨q, hq, hq2, hq3⟩ := ih (m - q1.pos) (by omega) q1 (by omega) hq1b (Nat.le_refl _)
+        refine ⟨q, hq, ?_, ?_⟩
+        · intro hp
+          have hg := skipSpace_good t _ ((hadv hp).adv1 (show p.pos + k < t.length by omega) (show t.getD (p.pos + k) 0 ≠ 13 by rw [h63]; decide) (show t.getD (p.pos + k) 0 ≠ 10 by rw [h63]; decide))
+          simp only at hg
+          rw [hsk] at hg
+          exact hq2 hg.1
+        · intro f hf
+          obtain ⟨f, rfl⟩ : ∃ g, f = g + 1 := ⟨f - 1, by omega⟩
+          rw [piInner, cstr_le hple]; simp only [Res.ok_bind]
+          rw [hidx]; simp only
+          rw [peek_eq (by omega)]; simp only [Res.ok_bind]
+          rw [if_pos h63, peek_eq (by omega)]; simp only [Res.ok_bind]
+          rw [if_neg hne62, hsk]; simp only [Res.ok_bind]
+          exact hq3 f (by omega)
+      have hne63 : t.getD (p.pos + k) 0 ≠ 63 := h63
       have hlb := piStop_cases hstop hne63
       -- skipSpace consumes the line break and the white space behind it
       obtain ⟨q1, hq1, hq1a, hq1b⟩ := skipLoop_bound t lo m (by omega) (by rw [h1]; decide) (by rw [h1]; decide)
@@ -124,7 +147,7 @@ theorem piInner_walk (t : Bytes) (lo m : Nat) (hm : m + 2 ≤ t.length)
 
 /-- one round of the loop over processing instructions -/
 theorem piLoop_step (t : Bytes) (p : Pos) (body rest : Bytes)
-    (h : t.drop p.pos = [60, 63] ++ (body ++ ([63, 62] ++ rest))) (hb : ∀ b ∈ body, b ≠ 63 ∧ b ≠ 60) :
+    (h : t.drop p.pos = [60, 63] ++ (body ++ ([63, 62] ++ rest))) (hb : piBody body) :
     ∃ q : Pos, q.pos = p.pos + 2 + body.length + 2 ∧ (PosOK t p → PosOK t q) ∧
       ∀ f, piLoop t (f + 1) p = (skipSpace t q).bind fun q2 => piLoop t f q2.1 := by
   have h0 : t.drop p.pos = 60 :: 63 :: (body ++ ([63, 62] ++ rest)) := by simpa using h
@@ -134,12 +157,17 @@ theorem piLoop_step (t : Bytes) (p : Pos) (body rest : Bytes)
   have hdm : t.drop (p.pos + 2 + body.length) = 63 :: 62 :: rest := by simpa using drop_append hd2'
   obtain ⟨hmlt, m0, hdm1⟩ := drop_cons hdm
   obtain ⟨hm1lt, m1, _⟩ := drop_cons hdm1
-  have hbody : ∀ i, p.pos + 2 ≤ i → i < p.pos + 2 + body.length → t.getD i 0 ≠ 63 ∧ t.getD i 0 ≠ 60 := by
+  have hd2'' : t.drop (p.pos + 2) = (body ++ [63]) ++ (62 :: rest) := by rw [hd2']; simp
+  have hbody : ∀ i, p.pos + 2 ≤ i → i < p.pos + 2 + body.length →
+      (t.getD i 0 = 63 → t.getD (i + 1) 0 ≠ 62) ∧ t.getD i 0 ≠ 60 := by
     intro i hi1 hi2
     have e1 := drop_getD hd2' (show i - (p.pos + 2) < body.length by omega)
     rw [show p.pos + 2 + (i - (p.pos + 2)) = i by omega] at e1
-    rw [e1]
-    exact hb _ (getD_mem (by omega))
+    have e2 := drop_getD hd2'' (show i - (p.pos + 2) + 1 < (body ++ [63]).length by simp; omega)
+    rw [show p.pos + 2 + (i - (p.pos + 2) + 1) = i + 1 by omega] at e2
+    obtain ⟨g1, g2⟩ := hb (i - (p.pos + 2)) (by omega)
+    rw [e1, e2]
+    exact ⟨g2, g1⟩
   obtain ⟨q, hq1, hq2, hq3⟩ := piInner_walk t (p.pos + 2) (p.pos + 2 + body.length) (by omega) m0 m1 hbody p
     body.length ⟨p.line, p.pos + 2, p.ls⟩ (by simp) (by simp) (by simp)
   have hlen : body.length ≤ t.length := by omega
